@@ -154,6 +154,8 @@ def r19_4_5(ctx) -> None:
 
 
 def run(ctx) -> None:
+    from .common import forwarding_discipline
+    ctx.guard(forwarding_discipline, "R19.7", ['s', 'data'], 4)  # arguments are handed on under their own name (generic routing rule, rules/common.py)
     ctx.guard(r19_1)
     ctx.guard(r19_2_3)
     ctx.guard(r19_4_5)
